@@ -124,6 +124,10 @@ def render_isar_struct(draw, schema, st_, patch):
                 parts.append('<member %s><dimension size="%s"/></member>' % (attrs, ir._xml(m.size_expr)))
                 patch.append('%s limited %s num_of_%s' % (st_.name, m.name, m.name))
                 forms.add('patch:limited')
+            elif m.size % 2 == 0 and m.size > 2 and m.size_expr == str(m.size) and draw(st.booleans()):
+                parts.append('<member %s><dimension size="%d" size2="2" isVariableSize="true" '
+                             'variableSizeFieldName="num_of_%s"/></member>' % (attrs, m.size // 2, m.name))
+                forms.add('limited-size2')
             else:
                 parts.append('<member %s><dimension size="%s" isVariableSize="true" '
                              'variableSizeFieldName="num_of_%s"/></member>' % (attrs, ir._xml(m.size_expr), m.name))
